@@ -71,6 +71,16 @@ PROPS = {
         ],
         "assumptions": ["the header table in docs/schema-native.md is the specification (independent reader in harness/internal/model/header.go)"],
     },
+    "C18": {
+        "level": "fault_enumeration",
+        "tests": [T("TestC18Atomic", "kv", 3000, 480000, shards=16)],
+        "assumptions": [
+            "stored timestamps are even and snapshot timestamps odd, so the reference merge needs no tie-break",
+            "cancellation is injected before the merge starts (the merge checks the context after each DBI, so the first DBI is merged and then aborted)",
+            "the concurrent reader uses DBI handles opened before the merge (LMDB forbids opening handles concurrently with a writer)",
+            "shadow-mode cases run in steady state with the dupsort hack disabled; a peer that declares a different DBI type for an existing DBI name is out of scope",
+        ],
+    },
     "C19": {
         "level": "exploration",
         "tests": [T("TestC19Strategies", "kv", 12000, 1600000, shards=16)],
